@@ -699,6 +699,12 @@ def check_token_use(rep, R, cfg, rule='C10.R3'):
                 for side in (0, 1):
                     if t[1] == r_[1][side]:
                         return n_, side, t[2]
+        if t[0] == 'bvar':
+            # an element of one of the two lists, visited in order: its position is its index
+            for n_, r_ in enumerate(rets):
+                for side in (0, 1):
+                    if t[3] == r_[1][side]:
+                        return n_, side, ('indexof', t)
         return None
     # pairs of a student line
     objs = {}
